@@ -541,6 +541,7 @@ func (e *engine) stepProc(p *proc) {
 			return
 		}
 		var next *request
+		silent := time.Now()
 		for next == nil {
 			select {
 			case next = <-s.reqCh:
@@ -550,6 +551,13 @@ func (e *engine) stepProc(p *proc) {
 					e.deadProcs[p.inst] = n
 					p.gone = true
 					s.emit(nil, "API=-1")
+					return
+				}
+				// ... or is it blocked somewhere the simulation does not see (e.g. waiting on a context that is never
+				// cancelled because it is not the one its role scheduler handed out)? Give up on it after 3 s of silence.
+				if time.Since(silent) > 3*time.Second {
+					p.gone = true
+					s.emit(nil, "API=-6")
 					return
 				}
 			}
